@@ -2129,7 +2129,8 @@ coap_read_session(coap_context_t *ctx, coap_session_t *session, coap_tick_t now)
                                                                 packet->length);
     if (bytes_read < 0) {
       coap_session_disconnected_lkd(session, COAP_NACK_NOT_DELIVERABLE);
-    } else if (bytes_read > 2) {
+    } else if (bytes_read > 0) {
+      /* The CoAP over WebSockets header is 2 bytes: a message can be that short */
       coap_pdu_t *pdu;
 
       session->last_rx_tx = now;
